@@ -225,9 +225,14 @@ pub fn run(tier: Tier) -> i32 {
         vec![(Some(0.0), Some(0.001)), (Some(0.001), Some(0.002)), (Some(0.002), Some(0.0031))],
         // beyond the small scope: a label that ends after 399 s (about 80 000 frames: above 65 536)
         vec![(Some(0.0), Some(0.1)), (Some(0.1), Some(399.0)), (Some(399.0), Some(399.5))],
+        // up to the end of the stated domain (below 10 minutes = 6e9 units: above 2^32), on a cell with two frames per second
+        vec![(Some(0.0), Some(0.1)), (Some(0.1), Some(450.0)), (Some(450.0), Some(450.5))],
+        vec![(Some(0.0), Some(429.4967295)), (Some(429.4967296), Some(429.4967297)), (Some(429.4967297), Some(599.9999999))],
+        vec![(None, None), (None, Some(500.0)), (Some(500.0), Some(599.5))],
     ];
+    let slow_cell = (8000usize, 4000usize);
     for (ename, base, ns) in [("V0", &v0, 5usize), ("G", &gen, 2usize)] {
-        for &(rate, fp) in &unit_cells {
+        for &(rate, fp) in unit_cells.iter().chain([&slow_cell]) {
             if fp == 1 && ename == "V0" {
                 continue;
             }
@@ -236,7 +241,11 @@ pub fn run(tier: Tier) -> i32 {
                 // every label is covered by a known end (the statement does not say at which speed trailing labels
                 // without an end fall back to their model durations)
                 let far = pat.iter().any(|(_, e)| e.map(|x| x > 100.0).unwrap_or(false));
-                if far && !(ename == "G" && (rate, fp) == unit_cells[1] && speed == 1.0) {
+                let very_far = pat.iter().any(|(_, e)| e.map(|x| x > 400.0).unwrap_or(false));
+                if (rate, fp) == slow_cell && !very_far {
+                    continue;
+                }
+                if far && !(ename == "G" && (rate, fp) == if very_far { slow_cell } else { unit_cells[1] } && speed == 1.0) {
                     continue;
                 }
                 if speed != 1.0 && (pat.last().unwrap().1.is_none() || (rate, fp) != unit_cells[0] && (rate, fp) != unit_cells[5]) {
